@@ -34,6 +34,9 @@ type Cell struct {
 	ID  int
 	// Tag is engine metadata attached to an object (mutex state etc.)
 	Tag interface{}
+	// Up/UpIdx: the array cell this element cell belongs to (for unsafe.String on &b[0])
+	Up    *Cell
+	UpIdx int
 }
 
 type StructVal struct{ F []Value }
@@ -260,6 +263,7 @@ func (c *Cell) Elem(i int) *Cell {
 	}
 	if c.Sub[i] == nil {
 		c.Sub[i] = newCell(c.T.Underlying().(*types.Array).Elem())
+		c.Sub[i].Up, c.Sub[i].UpIdx = c, i
 	}
 	return c.Sub[i]
 }
